@@ -145,7 +145,17 @@ class _DropAnn(ast.NodeTransformer):
 
     def visit_FunctionDef(self, n):
         self.depth += 1
+        outer = getattr(self, "local_lists", set())
+        params = {a.arg for a in n.args.posonlyargs + n.args.args + n.args.kwonlyargs}
+        # locals that hold a list built in this function (literal, comprehension, list()/sorted() call)
+        self.local_lists = {t.id for x in ast.walk(n) if isinstance(x, (ast.Assign, ast.AnnAssign)) and x.value is not None
+                            and isinstance(x.value, (ast.List, ast.ListComp)) or
+                            (isinstance(x, (ast.Assign, ast.AnnAssign)) and isinstance(x.value, ast.Call)
+                             and isinstance(x.value.func, ast.Name) and x.value.func.id in ("list", "sorted"))
+                            for t in ((x.targets if isinstance(x, ast.Assign) else [x.target]))
+                            if isinstance(t, ast.Name)} - params
         self.generic_visit(n)
+        self.local_lists = outer
         self.depth -= 1
         return n
 
@@ -203,6 +213,20 @@ class _DropAnn(ast.NodeTransformer):
                 if hasattr(x, "lineno"):
                     x.lineno = x.end_lineno = n.lineno
             return lp
+        # X.sort(k..)  ->  X = sorted(X, k..)   for a local list X (the marker the ordering rules look for; an alias of X
+        # would be treated as still unsorted, which errs on the reporting side)
+        c0 = n.value
+        if self.depth > 0 and isinstance(c0, ast.Call) and isinstance(c0.func, ast.Attribute) and c0.func.attr == "sort" \
+                and isinstance(c0.func.value, ast.Name) and not c0.args and c0.func.value.id in getattr(self, "local_lists", set()):
+            x = c0.func.value.id
+            call = ast.Call(ast.Name("sorted", ast.Load()), [ast.Name(x, ast.Load())], c0.keywords)
+            a = ast.Assign([ast.Name(x, ast.Store())], call)
+            ast.copy_location(a, n)
+            ast.fix_missing_locations(a)
+            for y in ast.walk(a):
+                if hasattr(y, "lineno"):
+                    y.lineno = y.end_lineno = n.lineno
+            return a
         # X.extend([a, b]) -> X.append(a); X.append(b)
         c = n.value
         if self.depth > 0 and isinstance(c, ast.Call) and isinstance(c.func, ast.Attribute) and c.func.attr == "extend" \
